@@ -772,12 +772,371 @@ Proof.
   - reflexivity.
   - intros x Hx. unfold prows, frag_ids, cs_of, us_of in Hx. cbn [f_ids f_created f_updated f_phys] in Hx.
     apply in_combine_r in Hin. pose proof (split_sizes_rows _ _ _ _ _ _ _ Hin x Hx) as Hall.
+    assert (EC : CS = flat_map (fun f => live (f_del f) (cs_of f)) olds).
+    { unfold CS. clear - W. induction olds as [|f tl IH]; [reflexivity|]. cbn [flat_map].
+      rewrite (created_default_wf f (W f (or_introl eq_refl))), IH; [reflexivity | intros g Hg; apply W; right; exact Hg]. }
+    assert (EU : US = flat_map (fun f => live (f_del f) (us_of f)) olds).
+    { unfold US. clear - W. induction olds as [|f tl IH]; [reflexivity|]. cbn [flat_map].
+      rewrite (updated_default_wf f (W f (or_introl eq_refl))), IH; [reflexivity | intros g Hg; apply W; right; exact Hg]. }
     assert (Eall : combine IDS (combine CS US) = flat_map vrows olds).
-    { rewrite <- (flat_map_vrows olds W). unfold IDS, CS, US. f_equal; [|f_equal].
-      - apply flat_map_ext. reflexivity.
-      - clear - W. induction olds as [|f tl IH]; [reflexivity|]. cbn [flat_map].
-        rewrite (created_default_wf f (W f (or_introl eq_refl))), IH; [reflexivity | intros g Hg; apply W; right; exact Hg].
-      - clear - W. induction olds as [|f tl IH]; [reflexivity|]. cbn [flat_map].
-        rewrite (updated_default_wf f (W f (or_introl eq_refl))), IH; [reflexivity | intros g Hg; apply W; right; exact Hg]. }
+    { rewrite EC, EU. exact (flat_map_vrows olds W). }
     rewrite Eall in Hall. apply in_flat_map in Hall. exact Hall.
+Qed.
+
+(* ================================================================ ledger frames *)
+Lemma row_ok_insert L T T' V fresh nxt vis x :
+  (forall r, lget L r <> None -> r < nxt) -> (forall r, In r fresh -> nxt <= r) -> (forall r, In r T -> In r T') ->
+  row_ok L T vis x -> row_ok (insert V L fresh) T' vis x.
+Proof.
+  intros Hb Hf Hs (c0 & u0 & H1 & H2 & H3). exists c0, u0. repeat split; auto.
+  rewrite lget_insert. destruct (memN (fst x) fresh) eqn:E; [|exact H1].
+  apply memN_true in E. apply Hf in E. assert (fst x < nxt) by (apply Hb; congruence). lia.
+Qed.
+
+Lemma row_ok_fresh L T V fresh r : In r fresh -> In r T -> forall c, row_ok (insert V L fresh) T true (r, (c, V)).
+Proof.
+  intros Hr Ht c. exists V, V. cbn [fst snd]. rewrite lget_insert.
+  assert (E : memN r fresh = true) by (apply memN_true; exact Hr). rewrite E. repeat split; auto. intro C. contradiction.
+Qed.
+
+Lemma row_ok_fresh_new L T V fresh r : In r fresh -> row_ok (insert V L fresh) T true (r, (V, V)).
+Proof.
+  intros Hr. exists V, V. cbn [fst snd]. rewrite lget_insert.
+  assert (E : memN r fresh = true) by (apply memN_true; exact Hr). rewrite E. repeat split; auto.
+Qed.
+
+Lemma row_ok_touch_created L T V ids x : row_ok L T false x -> row_ok (touch V L ids) T false x.
+Proof.
+  intros (c0 & u0 & H1 & H2 & _). destruct x as [r [c u]]. cbn [fst snd] in *.
+  unfold row_ok. cbn [fst snd]. rewrite lget_touch. destruct (memN r ids).
+  - exists c0, V. unfold created_of. rewrite H1. cbn [fst snd]. repeat split; auto. discriminate.
+  - exists c0, u0. cbn [fst snd]. repeat split; auto. discriminate.
+Qed.
+
+Lemma row_ok_touch_vis L T V ids x : row_ok L T true x -> ~ In (fst x) ids -> row_ok (touch V L ids) T true x.
+Proof.
+  intros (c0 & u0 & H1 & H2 & H3) Hn. exists c0, u0. repeat split; auto. rewrite lget_touch.
+  apply memN_false in Hn. rewrite Hn. exact H1.
+Qed.
+
+Lemma row_ok_touched L T V ids r c u : row_ok L T false (r, (c, u)) -> In r ids -> row_ok (touch V L ids) T true (r, (c, V)).
+Proof.
+  intros (c0 & u0 & H1 & H2 & _) Hi. cbn [fst snd] in *. exists c0, V. cbn [fst snd]. rewrite lget_touch.
+  assert (E : memN r ids = true) by (apply memN_true; exact Hi). rewrite E. unfold created_of. rewrite H1. repeat split; auto.
+Qed.
+
+Lemma row_ok_vis_false L T x : row_ok L T true x -> row_ok L T false x.
+Proof. intros (c0 & u0 & H1 & H2 & _). exists c0, u0. repeat split; auto. discriminate. Qed.
+
+Lemma row_ok_false_u L T r c u u' : row_ok L T false (r, (c, u)) -> row_ok L T false (r, (c, u')).
+Proof. intros (c0 & u0 & H1 & H2 & _). exists c0, u0. cbn [fst snd] in *. repeat split; auto. discriminate. Qed.
+
+Lemma lget_touch_bound L V ids nxt :
+  (forall r, lget L r <> None -> r < nxt) -> (forall r, In r ids -> r < nxt) ->
+  forall r, lget (touch V L ids) r <> None -> r < nxt.
+Proof.
+  intros Hb Hi r H. rewrite lget_touch in H. destruct (memN r ids) eqn:E; [apply Hi; apply memN_true; exact E | apply Hb; exact H].
+Qed.
+Lemma lget_insert_bound L V fresh nxt nxt' :
+  (forall r, lget L r <> None -> r < nxt) -> nxt <= nxt' -> (forall r, In r fresh -> r < nxt') ->
+  forall r, lget (insert V L fresh) r <> None -> r < nxt'.
+Proof.
+  intros Hb Hle Hf r H. rewrite lget_insert in H. destruct (memN r fresh) eqn:E; [apply Hf; apply memN_true; exact E|].
+  specialize (Hb r H). lia.
+Qed.
+
+Lemma live_nil {A} (l : list A) : live [] l = l.
+Proof. unfold live. generalize 0. induction l as [|x l IH]; intro off; cbn [live_from memN existsb]; [reflexivity | f_equal; apply IH]. Qed.
+
+Lemma nlen_prows f : wf_frag f -> nlen (prows f) = f_phys f.
+Proof.
+  intros (_ & H1 & H2 & H3 & _). unfold prows, vrow. unfold nlen in *.
+  rewrite !combine_length. lia.
+Qed.
+
+(* a visible row, with its offset *)
+Lemma vrows_pos f x : wf_frag f -> In x (vrows f) <->
+  exists o, In (o, x) (combine (nseq 0 (f_phys f)) (prows f)) /\ memN o (f_del f) = false.
+Proof. intro W. unfold vrows, live. rewrite live_from_pos, (nlen_prows f W). reflexivity. Qed.
+
+Lemma prows_pos f o r c u : wf_frag f -> In (o, (r, (c, u))) (combine (nseq 0 (f_phys f)) (prows f)) ->
+  nthN (frag_ids f) o 0 = r /\ nth_optN (frag_ids f) o = Some r /\ o < f_phys f.
+Proof.
+  intros W H. pose proof W as (_ & H1 & H2 & H3 & _). unfold prows in H. rewrite <- H1 in H at 1.
+  apply combine3_pos in H as (P1 & _ & _); try lia.
+  pose proof (in_combine_nseq_bounds _ _ _ _ _ P1) as Hb. pose proof (combine_nseq_nthN _ _ _ _ 0 P1) as En.
+  rewrite N.sub_0_r in En. split; [exact En|]. split; [|lia]. rewrite (nthN_nth_optN _ _ 0) by lia. f_equal; exact En.
+Qed.
+
+(* the address-decoding lookup of the Update arm is right for a row id that is its own address *)
+Lemma created_lookup_addr_ok cur L T r :
+  (forall f, In f (m_frags cur) -> wf_frag f) ->
+  (forall f x, In f (m_frags cur) -> In x (prows f) -> row_ok L T false x) ->
+  addr_ok cur r = true -> ~ In r T ->
+  exists c0 u0, lget L r = Some (c0, u0) /\ created_lookup (m_frags cur) r = c0.
+Proof.
+  intros W I2 Ha Hn. unfold addr_ok, created_lookup in *.
+  destruct (find_frag_last (m_frags cur) (N.shiftr r 32)) as [f|] eqn:Ef; [|discriminate].
+  assert (Hf : In f (m_frags cur)).
+  { unfold find_frag_last in Ef. apply find_some in Ef as [Ef _]. apply in_rev. exact Ef. }
+  destruct (nth_optN (frag_ids f) (N.land r (two32 - 1))) as [r'|] eqn:En; [|discriminate].
+  apply N.eqb_eq in Ha. subst r'. set (off := N.land r (two32 - 1)) in *.
+  pose proof (W f Hf) as Wf. pose proof Wf as (_ & H1 & H2 & H3 & H4 & _).
+  destruct (nth_optN_nthN _ _ 0 _ En) as [E1 Hlt].
+  assert (Ecs : match f_created f with Some cs => nthN cs off 1 | None => 1 end = nthN (cs_of f) off 1).
+  { unfold cs_of. destruct (f_created f); [reflexivity|]. specialize (H4 eq_refl). lia. }
+  rewrite Ecs.
+  assert (Hrow : In (r, (nthN (cs_of f) off 1, nthN (us_of f) off 0)) (prows f)).
+  { unfold prows. apply (in_combine_r (nseq 0 (nlen (frag_ids f)))) with (x := 0 + off).
+    apply combine3_of_pos; try lia.
+    - rewrite <- E1. apply nthN_in_combine. lia.
+    - apply nthN_in_combine. lia.
+    - apply nthN_in_combine. lia. }
+  destruct (I2 f _ Hf Hrow) as (c0 & u0 & G1 & G2 & _). cbn [fst snd] in *. exists c0, u0. split; [exact G1 | apply G2; exact Hn].
+Qed.
+
+(* ================================================================ one step preserves the invariant *)
+Lemma rewrite_groups_in2 : forall gs final fid final' fid',
+  rewrite_groups final fid gs = Ok (final', fid') ->
+  forall f', In f' final' -> In f' final \/ exists g f i, In g gs /\ In f (snd g) /\ f' = set_id f i.
+Proof.
+  induction gs as [|g tl IH]; intros final fid final' fid' H f' Hf'; cbn [rewrite_groups] in H.
+  - inversion H; subst. left; exact Hf'.
+  - apply bind_ok in H as ([f1 fid1] & H1 & H2). cbn [fst snd] in H2.
+    destruct (IH _ _ _ _ H2 f' Hf') as [Hl|(g0 & f & i & Hg0 & Hin & E)].
+    + destruct (rewrite_group_in _ _ _ _ _ H1 f' Hl) as [Hx|Hx]; [left; exact Hx|].
+      destruct (fragments_with_ids_in _ _ _ Hx) as (f & i & Hf & E). right. exists g, f, i. split; [left; reflexivity | split; assumption].
+    + right. exists g0, f, i. split; [right; exact Hg0 | split; assumption].
+Qed.
+
+Lemma lower_groups_in ex : forall gs0 gs, lower_groups true ex gs0 = Ok gs ->
+  forall g, In g gs -> exists g0, In g0 gs0 /\
+    compact_carry (flat_map (fun i => match find_frag ex i with Some f => [f] | None => [] end) (fst g0)) (snd g0) = Ok (snd g).
+Proof.
+  induction gs0 as [|g0 tl IH]; intros gs H g Hg; cbn [lower_groups] in H.
+  - inversion H; subst. contradiction.
+  - apply bind_ok in H as (g1 & H1 & H). apply bind_ok in H as (tl' & Ht & H). inversion H; subst.
+    destruct Hg as [Hg|Hg].
+    + subst g. unfold lower_group in H1. apply bind_ok in H1 as (nf & Hc & H1). inversion H1; subst. cbn [snd].
+      exists g0. split; [left; reflexivity | exact Hc].
+    + destruct (IH _ Ht _ Hg) as (g2 & A & B). exists g2. split; [right; exact A | exact B].
+Qed.
+
+Lemma set_id_same f i : same_rows f (set_id f i) /\ f_del (set_id f i) = f_del f.
+Proof. repeat split. Qed.
+
+Lemma forallb_nseq (p : N -> bool) n o : forallb p (nseq 0 n) = true -> o < n -> p o = true.
+Proof. intros H Ho. rewrite forallb_forall in H. apply H. apply in_nseq. lia. Qed.
+
+Lemma step_inv17 st cur tl o m' L lh T :
+  Inv cur L T -> NoDup (map f_id (m_frags cur)) ->
+  step st (cur :: tl) o = Ok m' -> is_restore o = false -> op_ok cur o = true -> op_ok17 cur o = true ->
+  Inv m' (spec_step (m_version m') (Some cur) (handed_out (cur :: tl) m') L lh o)
+         (T ++ taint_step (Some cur) (handed_out (cur :: tl) m') o).
+Proof.
+  intros (I0 & I1 & I2 & I3 & I4) Hnd Hs Hr Hok Hok17.
+  destruct (step_shape _ _ _ _ _ I0 Hs Hr) as (t & final & nr' & Hl & Harm & Hfin & Hnext & Hver & Hst).
+  pose proof (build_arm_ids _ _ _ _ _ _ _ Harm) as (Hle & _ & _).
+  unfold handed_out. cbn [next_of]. rewrite Hnext. set (fresh := nseq (m_next cur) (nr' - m_next cur)).
+  assert (Hfresh : forall r, In r fresh <-> m_next cur <= r < nr') by (intro r; unfold fresh; rewrite in_nseq; lia).
+  set (V := m_version m').
+  assert (HT : forall T2 r, In r T -> In r (T ++ T2)) by (intros T2 r Hr0; apply in_or_app; left; exact Hr0).
+  destruct o as [sizes|sizes|upd gone|removed upd news|rew|groups|n| |v]; cbn [lower] in Hl; try discriminate;
+    cbn [spec_step taint_step].
+  - (* ---- append *)
+    inversion Hl; subst t; clear Hl. cbn [build_arm] in Harm.
+    apply bind_ok in Harm as ([nr1 nf1] & H1 & Harm). cbn [fst snd] in Harm. apply bind_ok in Harm as (nf2 & H2 & Harm).
+    inversion Harm; subst final nr1; clear Harm. rewrite app_nil_r.
+    apply Inv_intro; [exact Hst | | rewrite Hnext; apply (lget_insert_bound L V fresh (m_next cur) nr' I4 Hle); intros r Hr0; apply Hfresh in Hr0; lia].
+    intros f' Hf'. apply Hfin in Hf'. apply in_app_iff in Hf' as [Hf'|Hf'].
+    + split; [apply I1; exact Hf'|]. split; intros x Hx.
+      * eapply row_ok_insert; [exact I4 | intros r Hr0; apply Hfresh in Hr0; lia | intros r Hr0; exact Hr0 | exact (I2 f' x Hf' Hx)].
+      * eapply row_ok_insert; [exact I4 | intros r Hr0; apply Hfresh in Hr0; lia | intros r Hr0; exact Hr0 | exact (I3 f' x Hf' Hx)].
+    + unfold V. rewrite Hver in *. destruct (appended_frags _ _ _ _ _ _ _ H1 H2 f' Hf') as (W & Hd & Hrows).
+      split; [exact W|]. 
+      assert (Hall : forall x, In x (prows f') -> row_ok (insert (m_version cur + 1) L fresh) T true x).
+      { intros [r cu] Hx. destruct (Hrows _ Hx) as [Hb Ecu]. cbn [fst snd] in *. subst cu.
+        apply row_ok_fresh_new. apply Hfresh. exact Hb. }
+      split; intros x Hx; [apply row_ok_vis_false; apply Hall; exact Hx | apply Hall; apply in_vrows_prows; exact Hx].
+  - (* ---- overwrite *)
+    inversion Hl; subst t; clear Hl. cbn [build_arm] in Harm.
+    apply bind_ok in Harm as ([nr1 nf1] & H1 & Harm). cbn [fst snd] in Harm. apply bind_ok in Harm as (nf2 & H2 & Harm).
+    inversion Harm; subst final nr1; clear Harm. rewrite app_nil_r.
+    apply Inv_intro; [exact Hst | | rewrite Hnext; apply (lget_insert_bound L V fresh (m_next cur) nr' I4 Hle); intros r Hr0; apply Hfresh in Hr0; lia].
+    intros f' Hf'. apply Hfin in Hf'.
+    unfold V. rewrite Hver in *. destruct (appended_frags _ _ _ _ _ _ _ H1 H2 f' Hf') as (W & Hd & Hrows).
+    split; [exact W|].
+    assert (Hall : forall x, In x (prows f') -> row_ok (insert (m_version cur + 1) L fresh) T true x).
+    { intros [r cu] Hx. destruct (Hrows _ Hx) as [Hb Ecu]. cbn [fst snd] in *. subst cu.
+      apply row_ok_fresh_new. apply Hfresh. exact Hb. }
+    split; intros x Hx; [apply row_ok_vis_false; apply Hall; exact Hx | apply Hall; apply in_vrows_prows; exact Hx].
+  - (* ---- delete *)
+    inversion Hl; subst t; clear Hl. cbn [build_arm] in Harm. inversion Harm; subst final nr'; clear Harm. rewrite app_nil_r.
+    cbn [op_ok17] in Hok17. apply andb_true_iff in Hok17 as [Hnu Hgrow]. apply nodupb_NoDup in Hnu.
+    apply Inv_intro; [exact Hst | | intros r0 Hr0; pose proof (I4 r0 Hr0); lia].
+    intros f' Hf'. apply Hfin in Hf'. apply in_map_iff in Hf' as (f & Ef & Hf). apply filter_In in Hf as [Hf _].
+    rewrite with_dv_lowered in Ef. rewrite (replace_all_lowered (fun f0 x => set_del f0 (snd x)) (fun f0 x => eq_refl) _ Hnd upd f Hnu Hf) in Ef.
+    assert (Hsame : same_rows f f' /\ (forall o, In o (f_del f) -> In o (f_del f'))).
+    { unfold dv_grows in Hgrow. rewrite forallb_forall in Hgrow. specialize (Hgrow f Hf). unfold dv_after in Hgrow.
+      destruct (entry_for upd f) as [x|]; subst f'.
+      - split; [repeat split|]. intros o Ho. cbn [set_del f_del]. eapply subsetN_in; eauto.
+      - split; [repeat split | auto]. }
+    destruct Hsame as [Hsame Hdel].
+    split; [eapply same_rows_wf; eauto|]. split; intros x Hx.
+    + rewrite (same_rows_prows _ _ Hsame) in Hx. eapply I2; eauto.
+    + eapply I3; [exact Hf|]. eapply same_rows_vrows; eauto.
+  - (* ---- update (rewrite rows) *)
+    inversion Hl; subst t; clear Hl. cbn [build_arm] in Harm.
+    apply bind_ok in Harm as ([nr1 nf1] & H1 & Harm). cbn [fst snd] in Harm. apply bind_ok in Harm as (nf2 & H2 & Harm).
+    inversion Harm; subst final nr1; clear Harm.
+    cbn [op_ok17] in Hok17. apply andb_true_iff in Hok17 as [Hok17 Hgone]. apply andb_true_iff in Hok17 as [Hnu Hgrow].
+    apply nodupb_NoDup in Hnu. cbn [op_ok] in Hok.
+    set (carried := flat_map snd news) in *. set (L1 := touch V L carried).
+    assert (Hcar : forall r, In r carried -> In r (all_ids cur)).
+    { intros r Hr0. unfold carried in Hr0. apply in_flat_map in Hr0 as (x & Hx & Hr0). rewrite forallb_forall in Hok.
+      specialize (Hok x Hx). rewrite forallb_forall in Hok. apply memN_true. apply Hok; exact Hr0. }
+    assert (Hphys : forall r, In r (all_ids cur) -> exists c0 u0, lget L r = Some (c0, u0)).
+    { intros r Hr0. unfold all_ids in Hr0. apply in_flat_map in Hr0 as (f & Hf & Hr0).
+      pose proof (I1 f Hf) as (_ & A1 & A2 & A3 & _).
+      assert (exists cu, In (r, cu) (prows f)) as (cu & Hcu).
+      { unfold prows. destruct (in_combine_pos _ 0 _ Hr0) as (o & Ho).
+        pose proof (in_combine_nseq_bounds _ _ _ _ _ Ho) as Hb.
+        exists (nthN (cs_of f) o 1, nthN (us_of f) o 0).
+        apply (in_combine_r (nseq 0 (nlen (frag_ids f)))) with (x := o). apply combine3_of_pos; try lia; [exact Ho | |].
+        - replace o with (0 + o) at 1 by lia. apply nthN_in_combine. lia.
+        - replace o with (0 + o) at 1 by lia. apply nthN_in_combine. lia. }
+      destruct (I2 f _ Hf Hcu) as (c0 & u0 & G & _). exists c0, u0. exact G. }
+    assert (Hcarlt : forall r, In r carried -> r < m_next cur).
+    { intros r Hr0. destruct (Hphys r (Hcar r Hr0)) as (c0 & u0 & G). apply I4. congruence. }
+    assert (HL1 : forall r, lget L1 r <> None -> r < m_next cur) by (apply lget_touch_bound; assumption).
+    apply Inv_intro; [exact Hst | | rewrite Hnext; apply (lget_insert_bound L1 V fresh (m_next cur) nr' HL1 Hle); intros r Hr0; apply Hfresh in Hr0; lia].
+    intros f' Hf'. apply Hfin in Hf'. apply in_app_iff in Hf' as [Hf'|Hf'].
+    + (* a fragment that stays *)
+      apply in_map_iff in Hf' as (f & Ef & Hf). apply filter_In in Hf as [Hf Hrem]. apply negb_true_iff in Hrem.
+      rewrite with_dv_lowered in Ef. rewrite (replace_first_lowered (fun f0 x => set_del f0 (snd x)) (fun f0 x => eq_refl) _ Hnd upd f Hf) in Ef.
+      assert (Hsame : same_rows f f' /\ (forall o, In o (f_del f) -> In o (f_del f')) /\ f_del f' = dv_after upd f).
+      { unfold dv_grows in Hgrow. rewrite forallb_forall in Hgrow. specialize (Hgrow f Hf). unfold dv_after in *.
+        destruct (entry_for upd f) as [x|]; subst f'.
+        - split; [repeat split|]. split; [|reflexivity]. intros o Ho. cbn [set_del f_del]. eapply subsetN_in; eauto.
+        - split; [repeat split | auto]. }
+      destruct Hsame as (Hsame & Hdel & Edv).
+      pose proof (same_rows_wf _ _ Hsame (I1 f Hf)) as W'.
+      split; [exact W'|]. split; intros x Hx.
+      * rewrite (same_rows_prows _ _ Hsame) in Hx.
+        eapply row_ok_insert; [exact HL1 | intros r Hr0; apply Hfresh in Hr0; lia | auto |].
+        apply row_ok_touch_created. eapply I2; eauto.
+      * (* visible afterwards: not one of the rewritten rows *)
+        assert (Hnot : ~ In (fst x) carried).
+        { apply (vrows_pos _ _ W') in Hx as (o & Ho & Hdv). rewrite (same_rows_prows _ _ Hsame) in Ho.
+          destruct Hsame as (_ & _ & _ & Eph). rewrite Eph in Ho. destruct x as [r [c u]].
+          destruct (prows_pos _ _ _ _ _ (I1 f Hf) Ho) as (En & _ & Hlt).
+          rewrite forallb_forall in Hgone. specialize (Hgone f Hf). rewrite Hrem in Hgone. cbn [orb] in Hgone.
+          pose proof (forallb_nseq _ _ o Hgone Hlt) as Hp. cbn beta in Hp. rewrite <- Edv, Hdv, En in Hp. cbn [orb] in Hp.
+          apply negb_true_iff in Hp. apply memN_false in Hp. exact Hp. }
+        eapply row_ok_insert; [exact HL1 | intros r Hr0; apply Hfresh in Hr0; lia | auto |].
+        apply row_ok_touch_vis; [|exact Hnot]. eapply I3; [exact Hf|]. eapply same_rows_vrows; eauto.
+    + (* a new fragment: rewritten rows, then inserted rows *)
+      unfold V in *. rewrite Hver in *.
+      destruct (updated_frags _ _ _ _ _ _ _ _ H1 H2 f' Hf') as (W & Hd & Hrows).
+      split; [exact W|].
+      assert (Hall : forall x, In x (prows f') ->
+                row_ok (insert (m_version cur + 1) L1 fresh) (T ++ filter (fun r => negb (addr_ok cur r)) carried ++ fresh) true x).
+      { intros [r [c u]] Hx. destruct (Hrows _ Hx) as [Hor Ecu]. cbn [fst snd] in *. inversion Ecu; subst c u; clear Ecu.
+        destruct Hor as [Hc|Hb].
+        - (* carried *)
+          pose proof (Hcarlt r Hc) as Hlt.
+          destruct (Hphys r (Hcar r Hc)) as (c0 & u0 & G).
+          exists c0, (m_version cur + 1). cbn [fst snd]. rewrite lget_insert.
+          assert (E : memN r fresh = false) by (apply memN_false; intro C; apply Hfresh in C; lia). rewrite E.
+          unfold L1. rewrite lget_touch. assert (E2 : memN r carried = true) by (apply memN_true; exact Hc). rewrite E2.
+          unfold created_of. rewrite G. cbn [fst]. repeat split; auto.
+          intro Hn. assert (Ha : addr_ok cur r = true).
+          { destruct (addr_ok cur r) eqn:Ea; [reflexivity|]. exfalso. apply Hn. apply in_or_app. right. apply in_or_app. left.
+            apply filter_In. split; [exact Hc | rewrite Ea; reflexivity]. }
+          assert (HnT : ~ In r T) by (intro C; apply Hn; apply in_or_app; left; exact C).
+          destruct (created_lookup_addr_ok cur L T r I1 I2 Ha HnT) as (c1 & u1 & G1 & G2). congruence.
+        - (* inserted *)
+          apply row_ok_fresh; [apply Hfresh; exact Hb|]. apply in_or_app. right. apply in_or_app. right. apply Hfresh; exact Hb. }
+      split; intros x Hx; [apply row_ok_vis_false; apply Hall; exact Hx | apply Hall; apply in_vrows_prows; exact Hx].
+  - (* ---- in-place column rewrite *)
+    inversion Hl; subst t; clear Hl. rewrite I0 in Harm. cbn [build_arm fragments_with_ids fst assign_row_ids bind snd stamp_updated] in Harm.
+    inversion Harm; subst final nr'; clear Harm. rewrite app_nil_r.
+    cbn [op_ok17] in Hok17. apply andb_true_iff in Hok17 as [Hnu Hpos]. apply nodupb_NoDup in Hnu.
+    set (U := rewritten_ids cur rew) in *.
+    apply Inv_intro; [exact Hst | |].
+    2:{ intros r0 Hr00. assert (r0 < m_next cur); [|lia]. revert r0 Hr00.
+        apply lget_touch_bound; [exact I4|]. intros r Hr0. unfold U, rewritten_ids in Hr0.
+        apply in_flat_map in Hr0 as (x & Hx & Hr0). destruct (find_frag (m_frags cur) (fst x)) as [f|] eqn:Ef; [|contradiction].
+        apply find_frag_some in Ef as [Hf _]. unfold ids_at in Hr0. apply in_flat_map in Hr0 as (o & _ & Hr0).
+        destruct (nth_optN (frag_ids f) o) as [r'|] eqn:En; [|contradiction]. destruct Hr0 as [Hr0|[]]. subst r'.
+        pose proof (I1 f Hf) as Wf. pose proof Wf as (_ & A1 & A2 & A3 & _).
+        destruct (nth_optN_nthN _ _ 0 _ En) as [E1 Hlt].
+        assert (Hrow : In (r, (nthN (cs_of f) o 1, nthN (us_of f) o 0)) (prows f)).
+        { unfold prows. apply (in_combine_r (nseq 0 (nlen (frag_ids f)))) with (x := 0 + o).
+          apply combine3_of_pos; try lia; [rewrite <- E1|..]; apply nthN_in_combine; lia. }
+        destruct (I2 f _ Hf Hrow) as (c0 & u0 & G & _). apply I4. cbn [fst] in G. congruence. }
+    intros f' Hf'. apply Hfin in Hf'. rewrite app_nil_r in Hf'.
+    apply in_map_iff in Hf' as (f & Ef & Hf). apply filter_In in Hf as [Hf _].
+    rewrite rewrite_cols_lowered in Ef.
+    rewrite (replace_first_lowered _ (refreshed_id (m_version cur + 1) (m_version cur)) _ Hnd rew f Hf) in Ef.
+    pose proof (I1 f Hf) as Wf.
+    rewrite forallb_forall in Hpos. specialize (Hpos f Hf). cbn zeta in Hpos.
+    unfold V. rewrite Hver.
+    destruct (entry_for rew f) as [x0|] eqn:Een.
+    + (* rewritten fragment *)
+      subst f'. destruct (refreshed_rows (m_version cur + 1) (m_version cur) f x0 Wf) as [W' Hrows].
+      destruct (refreshed_same (m_version cur + 1) (m_version cur) f x0) as (_ & _ & Sph & Sdel).
+      split; [exact W'|]. split; intros [r [c u']] Hx.
+      * destruct (in_combine_pos _ 0 _ Hx) as (o & Ho). rewrite (nlen_prows _ W'), Sph in Ho.
+        destruct (Hrows _ _ _ _ Ho) as (u & Hu & _). apply in_combine_r in Hu.
+        apply row_ok_touch_created. eapply row_ok_false_u. eapply I2; eauto.
+      * apply (vrows_pos _ _ W') in Hx as (o & Ho & Hdv). rewrite Sph in Ho. rewrite Sdel in Hdv.
+        destruct (Hrows _ _ _ _ Ho) as (u & Hu & Eu').
+        destruct (prows_pos _ _ _ _ _ Wf Hu) as (En & Eno & Hlt).
+        pose proof (forallb_nseq _ _ o Hpos Hlt) as Hp. cbn beta in Hp. rewrite Hdv, En in Hp. cbn [orb] in Hp.
+        assert (Hvis : In (r, (c, u)) (vrows f)) by (apply (vrows_pos _ _ Wf); exists o; split; assumption).
+        destruct (memN o (touched_offs f (snd x0))) eqn:Et; subst u'.
+        -- (* touched: the id is one of the rewritten ids *)
+           apply (row_ok_touched L T _ U r c u); [eapply I2; [exact Hf | apply in_combine_r in Hu; exact Hu]|].
+           unfold U, rewritten_ids. apply in_flat_map. unfold entry_for in Een. apply find_some in Een as [Hx0 Eid].
+           apply N.eqb_eq in Eid. exists x0. split; [exact Hx0|]. rewrite Eid, (find_frag_unique _ _ Hnd Hf).
+           unfold ids_at. apply in_flat_map. exists o. split; [apply memN_true; exact Et | rewrite Eno; left; reflexivity].
+        -- cbn [orb] in Hp. apply negb_true_iff in Hp. apply memN_false in Hp.
+           apply row_ok_touch_vis; [eapply I3; eauto | exact Hp].
+    + (* untouched fragment *)
+      subst f'. split; [exact Wf|]. split; intros x Hx.
+      * apply row_ok_touch_created. eapply I2; eauto.
+      * apply row_ok_touch_vis; [eapply I3; eauto|].
+        apply (vrows_pos _ _ Wf) in Hx as (o & Ho & Hdv). destruct x as [r [c u]].
+        destruct (prows_pos _ _ _ _ _ Wf Ho) as (En & _ & Hlt).
+        pose proof (forallb_nseq _ _ o Hpos Hlt) as Hp. cbn beta in Hp. rewrite Hdv, En in Hp. cbn [orb memN existsb] in Hp.
+        apply negb_true_iff in Hp. apply memN_false in Hp. exact Hp.
+  - (* ---- compaction *)
+    rewrite I0 in Hl. apply bind_ok in Hl as (gs & Hg & Hl). inversion Hl; subst t; clear Hl. cbn [build_arm] in Harm.
+    apply bind_ok in Harm as ([f1 fid1] & H1 & Harm). cbn [fst snd] in Harm. inversion Harm; subst final nr'; clear Harm. rewrite app_nil_r.
+    apply Inv_intro; [exact Hst | | intros r0 Hr0; pose proof (I4 r0 Hr0); lia].
+    intros f' Hf'. apply Hfin in Hf'.
+    destruct (rewrite_groups_in2 _ _ _ _ _ H1 f' Hf') as [Hex|(g & f & i & Hgin & Hfin2 & Ef)].
+    + split; [apply I1; exact Hex|]. split; intros x Hx; [eapply I2 | eapply I3]; eauto.
+    + destruct (lower_groups_in _ _ _ Hg g Hgin) as (g0 & _ & Hc).
+      assert (Wolds : forall f0, In f0 (flat_map (fun i0 => match find_frag (m_frags cur) i0 with Some f2 => [f2] | None => [] end) (fst g0)) ->
+                                 wf_frag f0 /\ In f0 (m_frags cur)).
+      { intros f0 H0. apply in_flat_map in H0 as (i0 & _ & H0). destruct (find_frag (m_frags cur) i0) as [f2|] eqn:E2; [|contradiction].
+        destruct H0 as [H0|[]]. subst f2. apply find_frag_some in E2 as [E2 _]. split; [apply I1|]; exact E2. }
+      destruct (compact_rows _ _ _ (fun f0 H0 => proj1 (Wolds f0 H0)) Hc f Hfin2) as (W & Hd & Hrows).
+      destruct (set_id_same f i) as [Ss Sd]. subst f'.
+      split; [eapply same_rows_wf; eauto|].
+      assert (Hall : forall x, In x (prows f) -> row_ok L T true x).
+      { intros x Hx. destruct (Hrows x Hx) as (f0 & Hf0 & Hv). eapply I3; [apply (Wolds f0 Hf0) | exact Hv]. }
+      split; intros x Hx.
+      * rewrite (same_rows_prows _ _ Ss) in Hx. apply row_ok_vis_false. apply Hall; exact Hx.
+      * apply in_vrows_prows in Hx. rewrite (same_rows_prows _ _ Ss) in Hx. apply Hall; exact Hx.
+  - (* ---- reserve fragment ids *)
+    inversion Hl; subst t; clear Hl. cbn [build_arm] in Harm. inversion Harm; subst final nr'; clear Harm. rewrite app_nil_r.
+    apply Inv_intro; [exact Hst | | intros r0 Hr0; pose proof (I4 r0 Hr0); lia].
+    intros f' Hf'. apply Hfin in Hf'. split; [apply I1; exact Hf'|]. split; intros x Hx; [eapply I2 | eapply I3]; eauto.
+  - (* ---- no-op on fragments *)
+    inversion Hl; subst t; clear Hl. cbn [build_arm] in Harm. inversion Harm; subst final nr'; clear Harm. rewrite app_nil_r.
+    apply Inv_intro; [exact Hst | | intros r0 Hr0; pose proof (I4 r0 Hr0); lia].
+    intros f' Hf'. apply Hfin in Hf'. split; [apply I1; exact Hf'|]. split; intros x Hx; [eapply I2 | eapply I3]; eauto.
 Qed.
